@@ -380,11 +380,34 @@ def run_history(kind, nholes, d0, p0, ops, obs_at=None):
             else:
                 st0 = public_state(s)
                 ret.set_property('zz', 1)
+                if ret.dt is not None:
+                    guarded_call(lambda: ret.buffer_dt(timedelta(hours=1)))      # widens the RETURNED object's time bounds only
                 ret.set_dt(TimeInterval(EPOCH + timedelta(days=30), EPOCH + timedelta(days=31)))
                 if public_state(s) != st0:
                     fails.append((i, 'returned_object_aliases_receiver',
                                   f'in-place updates of the object returned by {o} changed the receiver'))
+    # shapes DERIVED from the receiver by read-only operations are separate shapes too: widening their time bounds in
+    # place (buffer_dt) must not show through the receiver (the library hands `dt=self.dt` to them)
+    if s.dt is not None:
+        for nm, fn in (('to_polygon', lambda: s.to_polygon()), ('circumscribing_circle', lambda: s.circumscribing_circle()),
+                       ('circumscribing_rectangle', lambda: s.circumscribing_rectangle())):
+            d = call(fn)
+            if d[0] != 'Ok' or d[1] is s or d[1].dt is None:
+                continue
+            st0 = public_state(s)
+            guarded_call(lambda: d[1].buffer_dt(timedelta(hours=2)))
+            if public_state(s) != st0:
+                fails.append((len(ops) - 1, 'returned_object_aliases_receiver',
+                              f'buffer_dt on the shape returned by {nm}() changed the receiver\'s time bounds'))
+                break
     return trace, fails
+
+
+def guarded_call(fn):
+    try:
+        return fn()
+    except Exception:   # noqa
+        return None
 
 
 def shrink(kind, nholes, d0, p0, ops):
